@@ -118,3 +118,53 @@ Proof.
   destruct (dec_struct fuel (c_fields c) body) as [[d rem]| | |]; cbn [map_rem]; try reflexivity.
   destruct (blen rem <=? blen body); cbn [map_rem]; [rewrite app_nil_r|]; reflexivity.
 Qed.
+
+(* ---------- the remainder rule: what deserialize_tagged hands back ---------- *)
+
+Lemma tag_dec_suffix big bs t r : tag_dec big bs = Ok (t, r) -> exists q, bs = q ++ r.
+Proof.
+  unfold tag_dec. destruct big.
+  - destruct bs as [|b0 [|b1 r0]]; try discriminate. intros [= <- <-]. exists [b0; b1]. reflexivity.
+  - destruct bs as [|b0 r0]; [discriminate|]. destruct ((b0 =? 31) || (b0 =? 255)).
+    + destruct r0 as [|b1 r1]; [discriminate|]. intros [= <- <-]. exists [b0; b1]. reflexivity.
+    + intros [= <- <-]. exists [b0]. reflexivity.
+Qed.
+
+(* for EVERY length style, every tag and every inner decoder that hands back a tail of what it was given: the input is
+   header ++ element ++ behind, the inner decoder sees exactly the element, and what is handed back is
+       (what the inner decoder left UNREAD of the element) ++ behind
+   — the unread rest of an element is not skipped but put in front of what follows it.  Harmless when the inner decoder reads
+   its element completely (every canonical value: C01); the root of the two open findings of C13 / C02 when it does not *)
+Theorem remainder_rule {A} ls big tag (k : bytes -> res (A * bytes)) bs v r :
+  (forall inp x rem, k inp = Ok (x, rem) -> exists used, inp = used ++ rem) ->
+  framed_dec ls big tag k bs = Ok (v, r) ->
+  exists hdr element behind unread,
+    bs = hdr ++ element ++ behind /\ k element = Ok (v, unread) /\ r = unread ++ behind.
+Proof.
+  intros Hk. unfold framed_dec.
+  assert (G : forall hdr bs1, bs = hdr ++ bs1 ->
+            (let* (len, payload) := len_de ls bs1 in
+             if blen payload <? len then Err IncompleteData else
+             let* (data, rem) := k (take len payload) in
+             if blen rem <=? len then Ok (data, drop (len - blen rem) payload) else Panic) = Ok (v, r) ->
+            exists hdr element behind unread, bs = hdr ++ element ++ behind /\ k element = Ok (v, unread) /\ r = unread ++ behind).
+  { intros hdr bs1 Ebs. destruct (len_de ls bs1) as [[len payload]| | |] eqn:E2; cbn [bind]; try discriminate.
+    destruct (len_de_suffix _ _ _ _ E2) as [lh Elh].
+    destruct (blen payload <? len) eqn:E3; [discriminate|].
+    destruct (k (take len payload)) as [[d rem]| | |] eqn:Ek; cbn [bind]; try discriminate.
+    destruct (blen rem <=? len) eqn:E5; [|discriminate]. intros [= <- <-].
+    destruct (Hk _ _ _ Ek) as [used Eu].
+    exists (hdr ++ lh), (take len payload), (drop len payload), rem. split; [|split; [exact Ek|]].
+    - rewrite Ebs, Elh, <- app_assoc. rewrite (take_drop len payload). reflexivity.
+    - (* drop (len - |rem|) payload = rem ++ drop len payload *)
+      assert (Lt : blen (take len payload) = len) by (apply blen_take; lia).
+      assert (Lu : blen used = len - blen rem) by (rewrite Eu, blen_app in Lt; lia).
+      assert (En : N.to_nat (len - blen rem) = length used) by (unfold blen in *; lia).
+      rewrite <- (take_drop len payload) at 1. rewrite Eu, <- app_assoc.
+      unfold drop at 1. rewrite En, skipn_app, skipn_all, Nat.sub_diag. reflexivity. }
+  destruct tag as [t|]; cbn [bind].
+  - destruct (tag_dec big bs) as [[a r0]| | |] eqn:E; cbn [bind]; try discriminate.
+    destruct (a =? t); cbn [bind]; [|discriminate].
+    destruct (tag_dec_suffix _ _ _ _ E) as [th Eth]. apply (G th r0 Eth).
+  - apply (G [] bs eq_refl).
+Qed.
